@@ -2,6 +2,7 @@
 import io
 import struct
 
+from vf import usage
 from vf.enc import elf as W
 from vf.ref import c08_reloc as REF
 from vf.ref import c08_corpus as CORP
@@ -144,6 +145,17 @@ def exp_entry(cls, mips64, rela, e):
     return d
 
 
+def _stream_of(tab):
+    """the stream a relocation table reads from (public attribute of sections; tables of the dynamic view keep the file object)"""
+    for attr in ('stream', '_stream'):
+        if getattr(tab, attr, None) is not None:
+            return getattr(tab, attr)
+    for attr in ('elffile', '_elffile'):
+        if getattr(tab, attr, None) is not None:
+            return getattr(tab, attr).stream
+    raise AttributeError('no stream on %r' % type(tab).__name__)
+
+
 def check_reltable(ctx, case, where, tab, t, cls, mips64, summary=None):
     """tab: RelocationSection or RelocationTable; t: model.  Field mismatches are bucketed per field and cell
     (`table|<field>|<cell>`); with summary=<bucket> (dynamic view of a table whose section view was already found correct)
@@ -196,6 +208,17 @@ def check_reltable(ctx, case, where, tab, t, cls, mips64, summary=None):
         bad.append('exc')
         ctx.fail_exc('%s|iter' % where, e, case)
     if not bad:
+        # the same walk consumed step by step with other stream users in between (a consumer that reads the relocated word after each entry)
+        try:
+            st = _stream_of(tab)
+            again = usage.stepwise(tab.iter_relocations, usage.disturber(st, tab.iter_relocations, (tab.num_relocations,)))
+            if [dict(r.entry) for r in again] != [dict(r.entry) for r in lst]:
+                fail('table|iter|interleaved-with-other-stream-use', '%d entries; a step-by-step walk with seeks / a nested walk in between yields %d entries, first difference at %s' % (
+                    len(lst), len(again), next((i for i, (x, y) in enumerate(zip(again, lst)) if dict(x.entry) != dict(y.entry)), min(len(again), len(lst)))))
+            ctx.count('stepwise.reltable')
+        except Exception as e:  # noqa
+            bad.append('exc')
+            ctx.fail_exc('%s|iter|interleaved-with-other-stream-use' % where, e, case)
         # random access must agree with the sequential walk (only meaningful when that one was right)
         for i in case.get('probe', []):
             if i < n:
@@ -241,6 +264,14 @@ def check_relr(ctx, case, where, tab, t, cls, summary=None):
             again = [r['r_offset'] for r in tab.iter_relocations()]
             if again != got:
                 fail('relr|second-pass', 'second iteration differs from the first')
+            # step by step, with the consumer reading elsewhere after every entry (every RELR consumer reads the addend at the yielded address)
+            st = _stream_of(tab)
+            third = [r['r_offset'] for r in usage.stepwise(tab.iter_relocations, usage.disturber(st, tab.iter_relocations, (tab.num_relocations,)))]
+            if third != got:
+                j = next((i for i, (a, b) in enumerate(zip(third, got)) if a != b), min(len(third), len(got)))
+                fail('relr|iter|interleaved-with-other-stream-use', 'words %s: a step-by-step walk with seeks / a nested walk in between differs at relocation %d: expected %s got %s (counts %d / %d)' % (
+                    hexl(t['words']), j, hexl(got[j:j + 3]), hexl(third[j:j + 3]), len(got), len(third)))
+            ctx.count('stepwise.relr')
     except Exception as e:  # noqa
         bad.append('exc')
         ctx.fail_exc('%s' % where, e, case)
@@ -484,6 +515,28 @@ def run_apply(ctx, case):
         ctx.count('apply.mode.disabled')
     except Exception as e:  # noqa
         ctx.fail_exc('apply|disabled', e, case)
+
+    # the same object file reached through a .gnu_debuglink of a stripped file: the caller's choice must reach the linked file
+    if reject is None and not case.get('none_end'):
+        try:
+            import zlib
+            fname = b'mod.debug'
+            link = fname + b'\0' + b'\0' * (-(len(fname) + 1) % 4) + struct.pack(('<' if le else '>') + 'I', zlib.crc32(data) & 0xffffffff)
+            stripped, _ = W.build({'cls': case['cls'], 'le': le, 'e_type': 1, 'e_machine': 0, 'shstrndx': 2,
+                                   'sections': [{'name': '', 'sh_type': 0}, {'name': '.gnu_debuglink', 'sh_type': 1, 'data': link}, {'name': '.shstrtab', 'sh_type': 3, 'data': b''}]})
+            for flag in (False, True):
+                main = L['ELFFile'](io.BytesIO(stripped), lambda name: io.BytesIO(data))
+                dil = main.get_dwarf_info(relocate_dwarf_sections=flag)
+                for t in case['targets']:
+                    got = fetch(dil, t['name'])
+                    want = expect[t['name']] if flag else t['data']
+                    if got != bytes(want):
+                        ctx.fail('apply|through-debuglink|relocate_dwarf_sections=%s' % flag, 'section %s of the linked object file: %s' % (
+                            t['name'], 'differs from the file contents' if not flag else 'differs from the relocated contents'), case)
+                        break
+            ctx.count('apply.through-debuglink')
+        except Exception as e:  # noqa
+            ctx.fail_exc('apply|through-debuglink', e, case)
 
     try:
         ef2 = L['ELFFile'](io.BytesIO(data))
